@@ -49,6 +49,7 @@ impl KeyCampaign {
       Source::Empty => (Layout { mappings: vec![] }, "empty".to_string(), false),
       Source::Random | Source::Dist => {
         let o = LayoutOpts {
+          weird: rng.chance(1, 4),
           absorbing: match self.absorbing { Some(b) => b, None => rng.chance(1, 2) },
           norepeat: self.force_norepeat || rng.chance(1, 2),
           special: self.force_special || rng.chance(1, 2),
